@@ -17,10 +17,21 @@ PART1 = {'t': 4, 'r': 0, 'pdvs': [{'id': 3, 'data': b'\x01' + STORE_CMD[:20]}]}
 PART2 = {'t': 4, 'r': 0, 'pdvs': [{'id': 3, 'data': b'\x03' + STORE_CMD[20:]}]}
 PART3 = {'t': 4, 'r': 0, 'pdvs': [{'id': 3, 'data': b'\x02' + b'DATASETBYTES'}]}
 # complete command set of a C-STORE-RQ for a class that is NOT received into a file (data set pending: PART3 ends it)
-MEM_CMD = refcmd.encode({0x0002: '1.2.840.10008.5.1.4.1.1.2', 0x0100: 0x0001, 0x0110: 9, 0x0700: 0, 0x0800: 0x0001,
+# (its Command Data Set Type is 0000H: any value but 0101H says 'data set present')
+MEM_CMD = refcmd.encode({0x0002: '1.2.840.10008.5.1.4.1.1.2', 0x0100: 0x0001, 0x0110: 9, 0x0700: 0, 0x0800: 0x0000,
                          0x1000: '1.2.3.4.5.9'})
 MEMDATA = {'t': 4, 'r': 0, 'pdvs': [{'id': 3, 'data': b'\x02' + b'ANOTHER, LONGER DATA SET'}]}
 MEMPART = {'t': 4, 'r': 0, 'pdvs': [{'id': 3, 'data': b'\x03' + MEM_CMD}]}
+# legal association PDUs far beyond any maximum PDU length (which does not apply to them): 128 contexts x 50 syntaxes
+_MANY_TS = [{'r': 0, 'name': '1.2.840.10008.1.2.4.%d' % k} for k in range(50, 100)]
+HUGE_RQ = dict(convs.RQ_SPEC, items=[convs.RQ_SPEC['items'][0]] +
+               [{'t': 0x20, 'r1': 0, 'id': 2 * i + 1, 'r2': 0, 'r3': 0, 'r4': 0,
+                 'abs': {'r': 0, 'name': '1.2.840.10008.5.1.4.1.1.%d' % (i + 1)}, 'ts': _MANY_TS} for i in range(128)] +
+               [convs.RQ_SPEC['items'][-1]])
+HUGE_AC = dict(convs.AC_SPEC, items=[convs.AC_SPEC['items'][0]] +
+               [{'t': 0x21, 'r1': 0, 'id': (2 * i + 1) % 256, 'r2': 0, 'result': 0 if i < 2 else 3, 'r3': 0,
+                 'ts': {'r': 0, 'name': convs.IMPLICIT}} for i in range(1, 128)] * 70 +
+               [convs.AC_SPEC['items'][-1]])
 TWO_MSGS = {'t': 4, 'r': 0, 'pdvs': convs.echo_rq(1)['pdvs'] + convs.echo_rq(2)['pdvs']}
 ECHO1 = convs.echo_rq(1)
 USER_MSG3 = convs.store_rq_pdus(2, pc_id=3)            # 3 fragments (1 command + 2 data)
@@ -59,6 +70,10 @@ def net_alphabet(model):
            {'a': 'pdu', 'spec': convs.RJ_SPEC}, {'a': 'pdu', 'spec': convs.REL_RQ},
            {'a': 'pdu', 'spec': convs.REL_RP}, {'a': 'pdu', 'spec': convs.ABORT_SU},
            {'a': 'raw', 'data': convs.UNKNOWN_PDU}, {'a': 'close'}]
+    if model.state == 2:
+        out.append({'a': 'pdu', 'spec': HUGE_RQ})
+    if model.state == 5:
+        out.append({'a': 'pdu', 'spec': HUGE_AC})
     prog = peer_progress(model) if model.state in (6, 7) else 0
     if prog == 0:
         out += [{'a': 'pdu', 'spec': ECHO1}, {'a': 'pdu', 'spec': PART1}, {'a': 'pdu', 'spec': MEMPART}]
